@@ -227,8 +227,11 @@ def finder_rules(ctx: Context) -> None:
             if len(deps) == 1 and {x.id for x in ast.walk(deps[0][0].ast) if isinstance(x, ast.Name)} - {"len", "np"} <= groups_names:
                 gname = sorted(groups_names)[0]
                 try:
-                    t_empty = bool(Evaluator(prog, f)._eval(deps[0][0].ast, {gname: []}))
-                    t_some = bool(Evaluator(prog, f)._eval(deps[0][0].ast, {gname: [0]}))
+                    # witnesses: no repeated group at all / one repeated group whose coordinates are all zero (the origin is a legitimate grid point: a
+                    # guard on the *content* of the groups, such as `.any()`, mistakes it for "no repeats")
+                    from ..absint import Vec
+                    t_empty = bool(Evaluator(prog, f)._eval(deps[0][0].ast, {gname: Vec([])}))
+                    t_some = bool(Evaluator(prog, f)._eval(deps[0][0].ast, {gname: Vec([0])}))
                 except AnalysisError:
                     raise AnalysisError(f"{f.loc(r)}: cannot read the guard `{src(deps[0][0].ast)}` of the early `return []` in the duplicate finder") from None
                 taken_when_true = deps[0][1] == "true"
